@@ -11,7 +11,7 @@ from checks import c01
 
 PID = "C12"
 RULE = ("Program = ORG $1000 / <mnemonic> <operand text> / ZZEND NOP. Operand text comes from (i) an enumerated list of "
-        "grammar-valid shapes with invalid content for every one of the 139 mnemonics (out-of-width values, registers "
+        "grammar-valid shapes with invalid content and of operands naming a label (the following statement or the statement itself: LBRA ZZEND, LDA ZZEND,PCR ...) for every one of the 139 mnemonics (out-of-width values, registers "
         "that do not exist or do not apply, modes the datasheet does not give the instruction), (ii) Hypothesis "
         "single- and double-character mutations (delete, duplicate, swap, replace, insert, bracket) of valid operands, "
         "and every single-character deletion/duplication of a base set enumerated, (iii) Hypothesis strings over the "
@@ -259,10 +259,16 @@ _BASE120 = VALID[::max(1, len(VALID) // 120)][:120]
 MUT_MNEMONICS = ["LDA", "LDX", "LDY", "STA", "LEAX", "JMP", "CLR", "CMPD", "PSHS", "PULU", "TFR", "ANDCC"]
 
 
+LABEL_OPERANDS = ["ZZEND", "ZZEND+1", "ZZEND-1", "#ZZEND", "<ZZEND", ">ZZEND", "[ZZEND]", "[ZZEND+2]", "ZZEND,X", "[ZZEND,Y]",
+                  "ZZEND,PCR", "[ZZEND,PCR]", "ZZEND+3,PCR", "ZZEND-3,PCR", "ZZSELF", "ZZSELF,PCR", "#ZZSELF"]
+
+
 def enumerated(tier, seed):
     for mn in R.MNEMONICS:
         for text in invalid_operands(mn):
             yield dict(mn=mn, op=text, cls="invalid_by_construction")
+        for text in LABEL_OPERANDS:      # operands that name the sentinel label or the statement's own label
+            yield dict(mn=mn, op=text, cls="label_operand")
     for mn in MUT_MNEMONICS:
         for base in _BASE120:
             for i in range(len(base)):
@@ -313,7 +319,8 @@ def searches(tier):
 
 
 def build(case):
-    return [A.line("", "ORG", "$1000"), A.line("", case["mn"], case["op"]), A.line("ZZEND", "NOP")]
+    return [A.line("", "ORG", "$1000"), A.line("ZZSELF" if "ZZSELF" in case["op"] else "", case["mn"], case["op"]),
+            A.line("ZZEND", "NOP")]
 
 
 def render(case):
